@@ -1,20 +1,23 @@
-(* LockTrace: traces of lock / access / fork events, mutex semantics, happens-before,
-   and the static access-table discipline checked for C20.
+(* LockTrace: traces of lock / access / fork events, mutex and read-write-mutex semantics,
+   happens-before, and the static access-table discipline checked for C20.
 
    Definitions only (the proofs are in Proofs/LockTraceProofs.v).
 
    Dynamic side.  A trace is the global sequence of synchronisation and memory events of
    one execution, in the order in which they took effect.  Threads, lock instances and
-   memory locations are numbers.  `Acq`/`Rel` are sync.Mutex Lock/Unlock (also used for
-   RWMutex, read side included: see the note at `wf_locks`), `Rd`/`Wr` plain loads and
+   memory locations are numbers.  `Acq`/`Rel` are sync.Mutex Lock/Unlock and the WRITE side
+   of a sync.RWMutex (Lock/Unlock); `RAcq`/`RRel` are the READ side of a sync.RWMutex
+   (RLock/RUnlock): any number of threads may be inside read sections of the same lock at
+   the same time, a write section excludes everything else.  `Rd`/`Wr` are plain loads and
    stores, `AtomicOp` any sync/atomic operation, `Fork t t'` a `go` statement executed by
    t that creates t'.
 
    Static side.  An `access` row is one syntactic access site of a tracked struct field
    (or package variable) of the Go code, with the set of mutexes (by static name
-   "Type.field" / "pkg.var") certainly held there.  The table itself is generated
-   (Gen/AccessTable.v). *)
-From Coq Require Import String List Arith Bool.
+   "Type.field" / "pkg.var") certainly held there.  A name that ends in "#R" says that the
+   lock is held AT LEAST in read mode (RLock, or Lock); a name without the suffix says that
+   it is held in write mode.  The table itself is generated (Gen/AccessTable.v). *)
+From Coq Require Import String List Arith Bool Ascii.
 Import ListNotations.
 
 Definition tid := nat.
@@ -24,6 +27,8 @@ Definition loc := nat.
 Inductive event : Type :=
 | Acq (t : tid) (l : lock)
 | Rel (t : tid) (l : lock)
+| RAcq (t : tid) (l : lock)
+| RRel (t : tid) (l : lock)
 | Rd (t : tid) (x : loc)
 | Wr (t : tid) (x : loc)
 | AtomicOp (t : tid) (x : loc)
@@ -34,7 +39,7 @@ Definition trace := list event.
 (* the thread that performs the event *)
 Definition thr (e : event) : tid :=
   match e with
-  | Acq t _ | Rel t _ | Rd t _ | Wr t _ | AtomicOp t _ | Fork t _ => t
+  | Acq t _ | Rel t _ | RAcq t _ | RRel t _ | Rd t _ | Wr t _ | AtomicOp t _ | Fork t _ => t
   end.
 
 Definition main_thread : tid := 0.
@@ -62,30 +67,54 @@ Definition is_fork (e : event) : bool :=
   match e with Fork _ _ => true | _ => false end.
 
 (* two accesses conflict: same location, different threads, at least one writes, and
-   they are not both atomic *)
+   they are not both atomic.  Two plain reads never conflict. *)
 Definition conflict (e1 e2 : event) (x : loc) : Prop :=
   accesses e1 x /\ accesses e2 x /\ thr e1 <> thr e2 /\
   (is_write e1 = true \/ is_write e2 = true) /\
   (is_atomic e1 = false \/ is_atomic e2 = false).
 
-(* ---- mutex semantics -------------------------------------------------------------- *)
+(* ---- mutex / read-write mutex semantics --------------------------------------------- *)
 
-Definition lockst := lock -> option tid.
+(* one lock: the thread inside a write section (if any), and the threads inside read
+   sections (a multiset: the list may repeat a thread) *)
+Record lst : Type := mkLst { wr : option tid; rds : list tid }.
 
-Definition st0 : lockst := fun _ => None.
+Definition lockst := lock -> lst.
 
-Definition upd (s : lockst) (l : lock) (v : option tid) : lockst :=
+Definition free : lst := mkLst None [].
+Definition st0 : lockst := fun _ => free.
+
+Definition upd (s : lockst) (l : lock) (v : lst) : lockst :=
   fun l' => if Nat.eqb l' l then v else s l'.
 
-(* a lock is held by at most one thread; only the holder releases; Go mutexes are not
-   re-entrant, so acquiring a held lock (even one's own) is not a step *)
+Fixpoint mem_tid (t : tid) (l : list tid) : bool :=
+  match l with [] => false | a :: r => Nat.eqb a t || mem_tid t r end.
+
+(* remove one occurrence *)
+Fixpoint remove_one (t : tid) (l : list tid) : list tid :=
+  match l with [] => [] | a :: r => if Nat.eqb a t then r else a :: remove_one t r end.
+
+(* A write section needs the lock entirely free; only its holder ends it; Go mutexes are
+   not re-entrant, so acquiring a held lock (even one's own) is not a step.  A read section
+   may begin whenever no write section is open (several may be open at once); only a
+   thread that is inside a read section ends one. *)
 Definition step (s : lockst) (e : event) : option lockst :=
   match e with
-  | Acq t l => match s l with None => Some (upd s l (Some t)) | Some _ => None end
-  | Rel t l => match s l with
-               | Some t' => if Nat.eqb t' t then Some (upd s l None) else None
+  | Acq t l => match wr (s l), rds (s l) with
+               | None, [] => Some (upd s l (mkLst (Some t) []))
+               | _, _ => None
+               end
+  | Rel t l => match wr (s l) with
+               | Some t' => if Nat.eqb t' t then Some (upd s l (mkLst None (rds (s l)))) else None
                | None => None
                end
+  | RAcq t l => match wr (s l) with
+                | None => Some (upd s l (mkLst None (t :: rds (s l))))
+                | Some _ => None
+                end
+  | RRel t l => if mem_tid t (rds (s l))
+                then Some (upd s l (mkLst (wr (s l)) (remove_one t (rds (s l)))))
+                else None
   | _ => Some s
   end.
 
@@ -95,14 +124,21 @@ Fixpoint run (tr : trace) (s : lockst) : option lockst :=
   | e :: r => match step s e with Some s' => run r s' | None => None end
   end.
 
-(* Well-formed with respect to the locks.  RWMutex read sections are represented as
-   exclusive sections: an execution in which two read sections of the same RWMutex
-   overlap is therefore NOT in the scope of the theorems (C20 note). *)
+(* Well-formed with respect to the locks: every lock operation of the trace is a step of
+   the semantics above.  Overlapping read sections of one RWMutex ARE well formed. *)
 Definition wf_locks (tr : trace) : Prop := exists s, run tr st0 = Some s.
 
-(* thread t holds lock g just before the event at position i *)
+(* thread t is inside a WRITE section of g (holds the mutex g) just before position i *)
 Definition holds (tr : trace) (i : nat) (t : tid) (g : lock) : Prop :=
-  exists s, run (firstn i tr) st0 = Some s /\ s g = Some t.
+  exists s, run (firstn i tr) st0 = Some s /\ wr (s g) = Some t.
+
+(* thread t is inside a READ section of g just before position i *)
+Definition holds_r (tr : trace) (i : nat) (t : tid) (g : lock) : Prop :=
+  exists s, run (firstn i tr) st0 = Some s /\ In t (rds (s g)).
+
+(* at least read mode *)
+Definition holds_any (tr : trace) (i : nat) (t : tid) (g : lock) : Prop :=
+  holds tr i t g \/ holds_r tr i t g.
 
 (* every thread but the main one is created by a Fork that precedes all its events *)
 Definition wf_threads (tr : trace) : Prop :=
@@ -116,12 +152,18 @@ Definition init_at (tr : trace) (i : nat) : Prop :=
 
 (* ---- happens-before ---------------------------------------------------------------- *)
 
-(* program order, release -> later acquire of the same lock, fork -> events of the
-   created thread; transitively closed.  Positions index the trace. *)
+(* program order; end of a write section -> later begin of a write or read section of the
+   same lock; end of a read section -> later begin of a write section of the same lock
+   (NOT of another read section: readers do not synchronise with each other);
+   fork -> events of the created thread; transitively closed.  Positions index the trace. *)
 Inductive hb (tr : trace) : nat -> nat -> Prop :=
 | hb_po : forall i j e1 e2, i < j -> nth_error tr i = Some e1 -> nth_error tr j = Some e2 ->
     thr e1 = thr e2 -> hb tr i j
 | hb_sync : forall i j t t' l, i < j -> nth_error tr i = Some (Rel t l) ->
+    nth_error tr j = Some (Acq t' l) -> hb tr i j
+| hb_sync_wr : forall i j t t' l, i < j -> nth_error tr i = Some (Rel t l) ->
+    nth_error tr j = Some (RAcq t' l) -> hb tr i j
+| hb_sync_rw : forall i j t t' l, i < j -> nth_error tr i = Some (RRel t l) ->
     nth_error tr j = Some (Acq t' l) -> hb tr i j
 | hb_fork : forall i j t t' e, i < j -> nth_error tr i = Some (Fork t t') ->
     nth_error tr j = Some e -> thr e = t' -> hb tr i j
@@ -131,14 +173,15 @@ Inductive hb (tr : trace) : nat -> nat -> Prop :=
 
 (* Location x is disciplined in tr when one of the following holds for ALL its accesses:
    (A) every access outside the initialisation phase is atomic;
-   (B) there is one lock g that the accessing thread holds at every access outside the
-       initialisation phase (atomic ones included);
+   (B) there is one lock g such that, outside the initialisation phase, every access is
+       made inside a WRITE section of g by the accessing thread, except that a plain read
+       may also be made inside a READ section of g;
    (C) every access outside the initialisation phase is a plain read (the location is
        immutable once the first goroutine has been started). *)
 Definition disciplined (tr : trace) (x : loc) : Prop :=
   (forall i e, nth_error tr i = Some e -> accesses e x -> init_at tr i \/ is_atomic e = true)
   \/ (exists g, forall i e, nth_error tr i = Some e -> accesses e x ->
-        init_at tr i \/ holds tr i (thr e) g)
+        init_at tr i \/ holds tr i (thr e) g \/ (is_read_only e = true /\ holds_r tr i (thr e) g))
   \/ (forall i e, nth_error tr i = Some e -> accesses e x -> init_at tr i \/ is_read_only e = true).
 
 (* race freedom on x: conflicting accesses are ordered by happens-before *)
@@ -155,7 +198,8 @@ Record access : Type := mkAccess {
   fn : string;            (* enclosing function *)
   field : string;         (* tracked location class: "Type.field", "pkg.var", "Type.*" *)
   kind : akind;
-  held : list string      (* static names of the mutexes certainly held at the site *)
+  held : list string      (* static names of the mutexes certainly held at the site;
+                             "name#R" = held at least in read mode *)
 }.
 
 Definition kind_is_init (k : akind) : bool := match k with KInit => true | _ => false end.
@@ -170,6 +214,16 @@ Fixpoint nodup_str (l : list string) : list string :=
   | a :: r => if mem_str a r then nodup_str r else a :: nodup_str r
   end.
 
+(* "name#R" -> "name"; other names unchanged *)
+Fixpoint strip_R (s : string) : string :=
+  match s with
+  | EmptyString => EmptyString
+  | String c r => if String.eqb s "#R" then EmptyString else String c (strip_R r)
+  end.
+
+(* the name denotes a read-mode hold *)
+Definition is_rname (g : string) : bool := negb (String.eqb (strip_R g) g).
+
 Definition fields_of (tbl : list access) : list string := nodup_str (map field tbl).
 
 (* rows of field f outside constructors *)
@@ -183,11 +237,17 @@ Definition common_locks (rows : list access) : list string :=
   | r :: rs => filter (fun g => forallb (fun a => mem_str g (held a)) rs) (held r)
   end.
 
+(* g guards the rows: it is held at every row, and every row that is not a plain read
+   holds it in WRITE mode (for a read-mode name "b#R": the row also lists "b") *)
+Definition guards (g : string) (rows : list access) : bool :=
+  negb (is_rname (strip_R g)) &&
+  forallb (fun a => kind_is_read (kind a) || mem_str (strip_R g) (held a)) rows.
+
 Definition field_ok (f : string) (tbl : list access) : bool :=
   let rows := live_rows f tbl in
   forallb (fun a => kind_is_atomic (kind a)) rows
   || forallb (fun a => kind_is_read (kind a)) rows
-  || match common_locks rows with [] => false | _ :: _ => true end.
+  || existsb (fun g => guards g rows) (common_locks rows).
 
 Definition discipline_ok (tbl : list access) : bool :=
   forallb (fun f => field_ok f tbl) (fields_of tbl).
@@ -208,12 +268,61 @@ Definition kind_matches (tr : trace) (i : nat) (e : event) (k : akind) : Prop :=
   | KWrite => True
   end.
 
+(* what a held name of a row promises about the lock state *)
+Definition name_held (tr : trace) (i : nat) (t : tid) (inst : string -> lock) (g : string) : Prop :=
+  if is_rname g then holds_any tr i t (inst (strip_R g)) else holds tr i t (inst g).
+
 (* A trace respects the table (for a given naming of locations by tracked field and a
    given association `inst x g` of the lock instance that static lock name g denotes for
    location x) when every access in it is an instance of some row of its field and the
-   accessing thread holds, at that moment, at least the locks the row records. *)
+   accessing thread holds, at that moment, at least the locks the row records, in at
+   least the recorded mode. *)
 Definition respects (field_of : loc -> string) (inst : loc -> string -> lock)
            (tbl : list access) (tr : trace) : Prop :=
   forall i e x, nth_error tr i = Some e -> accesses e x ->
     exists r, In r tbl /\ field r = field_of x /\ kind_matches tr i e (kind r) /\
-              forall g, In g (held r) -> holds tr i (thr e) (inst x g).
+              forall g, In g (held r) -> name_held tr i (thr e) (inst x) g.
+
+(* ---- executable check of a whole trace (one pass) ----------------------------------- *)
+
+Definition opt_tid_is (o : option tid) (t : tid) : bool :=
+  match o with Some t' => Nat.eqb t' t | None => false end.
+
+Definition name_heldb (s : lockst) (t : tid) (inst : string -> lock) (g : string) : bool :=
+  if is_rname g
+  then opt_tid_is (wr (s (inst (strip_R g)))) t || mem_tid t (rds (s (inst (strip_R g))))
+  else opt_tid_is (wr (s (inst g))) t.
+
+Definition kind_matchesb (init : bool) (e : event) (k : akind) : bool :=
+  match k with
+  | KInit => init
+  | KAtomic => is_atomic e
+  | KRead => is_read_only e
+  | KWrite => true
+  end.
+
+Section Check.
+  Variable field_of : loc -> string.
+  Variable inst : loc -> string -> lock.
+  Variable tbl : list access.
+
+  Definition row_okb (s : lockst) (init : bool) (e : event) (x : loc) (r : access) : bool :=
+    String.eqb (field r) (field_of x) && kind_matchesb init e (kind r) &&
+    forallb (name_heldb s (thr e) (inst x)) (held r).
+
+  (* s: lock state before the head of tr; init: no Fork so far; forked: threads created so far *)
+  Fixpoint check (tr : trace) (s : lockst) (init : bool) (forked : list tid) : bool :=
+    match tr with
+    | [] => true
+    | e :: r =>
+        let init' := init && negb (is_fork e) in
+        (Nat.eqb (thr e) main_thread || mem_tid (thr e) forked) &&
+        match acc_loc e with Some x => existsb (row_okb s init' e x) tbl | None => true end &&
+        match step s e with
+        | Some s' => check r s' init' (match e with Fork _ t' => t' :: forked | _ => forked end)
+        | None => false
+        end
+    end.
+
+  Definition check_trace (tr : trace) : bool := check tr st0 true [].
+End Check.
